@@ -4,14 +4,33 @@
 package doh
 
 
-// The HTTP round trip (net/http, RFC 8484 framing of the reply) is outside the contracts: whatever
-// the server sends, a reply holds at least a DNS header.
-//@ func (u *Upstream) exchange
-//@   nobody
+//@ type Upstream
+//@   immutable rt, logger, urlTemplate, reqTemplate
+//@   invariant self.rt != nil && self.logger != nil && self.urlTemplate != nil && self.reqTemplate != nil
+
+// NewUpstream (C18): the endpoint is used exactly as http.NewRequest parsed it: the URL (host,
+// port, brackets of an IPv6 literal) is not rewritten afterwards, so the name the TLS layer sees
+// is the one the user wrote.
+//@ func NewUpstream [C18]
+//@   requires rt != nil
+//@   modifies *
+//@   ensures (result_0 != nil) != (result_1 != nil)
+//@   ensures calls(httpNewRequest) == 1 && arg(httpNewRequest, 0, 1) == endPoint
+//@   ensures result_1 == nil ==> result_0.reqTemplate == ret(httpNewRequest, 0, 0) && result_0.urlTemplate == result_0.reqTemplate.URL && result_0.rt == rt
+//@   ensures result_1 == nil ==> aftercall(httpNewRequest, 0, ret(httpNewRequest, 0, 0).URL) == result_0.urlTemplate && result_0.urlTemplate.Host == aftercall(httpNewRequest, 0, ret(httpNewRequest, 0, 0).URL.Host)
+
+// exchange (C01): every call sends its OWN request object with its OWN copy of the URL carrying
+// exactly this call's query string; the shared templates are never written (concurrent calls do
+// not see each other's query). The HTTP exchange itself is the library's and the server's:
+// whatever comes back, a reply holds at least a DNS header.
+//@ func (u *Upstream) exchange [C01]
 //@   log dohRoundTrip
+//@   requires u != nil && ctx != nil
 //@   modifies *
 //@   ensures (result_0 != nil) != (result_1 != nil)
 //@   ensures result_0 != nil ==> len(*result_0) >= 12
+//@   ensures calls(RoundTrip) == 1 && arg(RoundTrip, 0, 0) == u.rt && fresh(arg(RoundTrip, 0, 1))
+//@   ensures fresh(atcall(RoundTrip, 0, arg(RoundTrip, 0, 1).URL)) && atcall(RoundTrip, 0, arg(RoundTrip, 0, 1).URL.RawQuery == dnsQuery)
 
 // chan struct{} (ctx.Done()) is a notification channel: never sent on, only closed.
 //@ chanmsg struct{} (v): false
